@@ -88,6 +88,15 @@ func (d *Decl) allTypes() []string {
 	for s := range d.Structs {
 		add(s)
 	}
+	if tw := d.Twin(); tw != nil {
+		add(tw.Target)
+		for _, p := range tw.Provs {
+			add(p.Bind)
+			for _, t := range p.Requires {
+				add(t)
+			}
+		}
+	}
 	var out []string
 	for k := range seen {
 		out = append(out, k)
@@ -128,6 +137,9 @@ func (d *Decl) UsesCtx() bool {
 			}
 		}
 	}
+	if tw := d.Twin(); tw != nil && tw.Target == "ctx" {
+		return true
+	}
 	return d.Target == "ctx" || d.Prelude == "ctx-injector" || d.Prelude == "pkg-ident-ctx"
 }
 
@@ -160,8 +172,15 @@ func (d *Decl) EmitBody(withTypes bool) string {
 			}
 		}
 	}
+	sb.WriteString(d.emitInject(true))
+	return sb.String()
+}
+
+// emitInject emits (optionally) the provider functions, then the Set variables and the Inject declaration.
+func (d *Decl) emitInject(withProviders bool) string {
+	var sb strings.Builder
 	for _, p := range d.Provs {
-		if p.Kind != Func {
+		if p.Kind != Func || !withProviders {
 			continue
 		}
 		var params, terms []string
@@ -313,6 +332,62 @@ func (d *Decl) Emit(pkg string) string {
 	case "pkg-ident-ctx":
 		sb.WriteString("// a package-level context that happens to be called ctx\nvar ctx = context.Background()\n\n")
 	}
-	sb.WriteString(d.EmitBody(true))
+	body := d.EmitBody(true)
+	if tw := d.Twin(); tw != nil {
+		// a second injector EARLIER in the same file, declared over the SAME provider functions but wrapped
+		// differently (Async / Bind): anything the generator remembers per provider function or per provider
+		// type across declarations shows up in the injector under test
+		i := strings.LastIndex(body, "var _ = kessoku.Inject[")
+		for k := range d.SetVar {
+			if d.SetVar[k] {
+				if j := strings.Index(body, fmt.Sprintf("var %sSet%d = ", d.Name, k)); j >= 0 && j < i {
+					i = j
+				}
+			}
+		}
+		body = body[:i] + tw.emitInject(false) + "\n" + body[i:]
+	}
+	sb.WriteString(body)
 	return sb.String()
+}
+
+// Twin returns the earlier injector ("Pre") of a twin prelude: the same providers, wrapped differently.
+func (d *Decl) Twin() *Decl {
+	if !strings.HasPrefix(d.Prelude, "twin-") {
+		return nil
+	}
+	t := d.Clone()
+	t.Name = "Pre"
+	t.Prelude = ""
+	for _, p := range t.Provs {
+		switch d.Prelude {
+		case "twin-all-async":
+			if p.Kind == Func {
+				p.Async = true
+			}
+		case "twin-all-sync":
+			p.Async = false
+		case "twin-bind":
+			// every function provider of a *T<k> is ALSO bound to I<k> in the earlier injector
+			if p.Kind == Func && p.Bind == "" && len(p.Provides) > 0 && strings.HasPrefix(p.Provides[0], "*T") {
+				p.Bind = "I" + strings.TrimPrefix(p.Provides[0], "*T")
+			}
+		case "twin-unbound":
+			p.Bind = ""
+		}
+	}
+	if d.Prelude == "twin-unbound" {
+		// without its Bind the earlier injector could not supply the interface: request the concrete graph instead
+		for _, p := range t.Provs {
+			for i, r := range p.Requires {
+				if strings.HasPrefix(r, "I") {
+					p.Requires[i] = "*T" + strings.TrimPrefix(r, "I")
+				}
+			}
+		}
+		if strings.HasPrefix(t.Target, "I") {
+			t.Target = "*T" + strings.TrimPrefix(t.Target, "I")
+		}
+	}
+	return t
 }
